@@ -7,11 +7,97 @@ from . import _storage as S
 from .c01 import ASSUME, _mc
 
 
+def _zsane(ctx):
+    """The transcription of _check_sanity with real byte sizes (ZSane): TLC searches for a stale index snapshot that
+    passes the sanity check against a later, packed file although its entries are wrong (position coincidence).
+    The counterexample is replayed on the real FileStorage: same commits with equal-sized records, index saved by a
+    close, pack between two transactions, then the stale .index put back."""
+    import shutil
+    from ..concretize import p64, z64
+    from ..tlaparse import MV
+    from ZODB.FileStorage import FileStorage
+    from ZODB.serialize import referencesf
+    c = sd.consts('file', NOid=3, MaxTxn=8, Cls='MCClsPlain')
+    rp = sd.StorageReplayer('file', dict(c, Cls=sd.cls_map(c)), os.path.join(ctx.scratch, 'zsane'), {})
+    L = len(rp.data(0, {'v': ('v1',), 'refs': frozenset()}))
+    cfg = os.path.join(ctx.scratch, 'zsane.cfg')
+    tlc.write_cfg(cfg, constants={'Oid': '{o0, o1}', 'MaxTxn': 4, 'L': L}, invariants=['IndexIsCache'])
+    r = ctx.model_check('ZSane', cfg, name='ZSane-position-coincidence', expect_violation='IndexIsCache', timeout=600)
+    steps = [s for s in r.trace if s['action'] != 'Init']
+    rp.open()
+    st = rp.st
+    serial = {}
+    snaps = []
+    clk = 0
+    out = {'steps': [], 'L': L}
+    try:
+        for s in steps:
+            a = s['action']
+            out['steps'].append('%s%r' % (a, tuple(sd.norm(s['args']))))
+            if a == 'Commit':
+                clk += 1
+                clock.CLOCK.set(clk)
+                t = rp._txn()
+                st.tpc_begin(t)
+                for o in s['args'][0]:
+                    oid = int(str(o)[1:])
+                    st.store(p64(oid), serial.get(oid, z64), rp.data(oid, {'v': ('v1',), 'refs': frozenset()}), '', t)
+                st.tpc_vote(t)
+                tid = st.tpc_finish(t)
+                for o in s['args'][0]:
+                    serial[int(str(o)[1:])] = tid
+            elif a == 'SaveIndex':
+                st.close()
+                with open(rp.path + '.index', 'rb') as f:
+                    snaps.append(f.read())
+                rp.open(create=False)
+                st = rp.st
+            elif a == 'Pack':
+                st.pack(clock.T0 + int(s['args'][0]) + 0.5, referencesf, gc=False)
+        st.close()
+        # full scan vs each stale snapshot
+        def view(index_bytes):
+            d = os.path.join(ctx.scratch, 'zsane-img')
+            shutil.rmtree(d, ignore_errors=True)
+            os.makedirs(d)
+            shutil.copy(rp.path, os.path.join(d, 'Data.fs'))
+            if index_bytes is not None:
+                with open(os.path.join(d, 'Data.fs.index'), 'wb') as f:
+                    f.write(index_bytes)
+            s2 = FileStorage(os.path.join(d, 'Data.fs'))
+            try:
+                used = bool(getattr(s2, '_used_index', 0))
+                res = {}
+                for o in range(3):
+                    try:
+                        data, ser = s2.load(p64(o), '')
+                        res[o] = (ser.hex(), len(data))
+                    except Exception as ex:
+                        res[o] = type(ex).__name__
+                return used, dict(s2._index.items()), res
+            finally:
+                s2.close()
+        _, scan_index, scan_view = view(None)
+        for sb in snaps:
+            used, idx, v = view(sb)
+            out['index_used'] = used
+            if used and (idx != scan_index or v != scan_view):
+                ctx.violation({'kind': 'index', 'stale': 'pre-pack', 'accepted': True, 'via': 'ZSane-counterexample'},
+                              'a pre-pack index passes _check_sanity against the packed file by position coincidence and is used: '
+                              'index %r vs full scan %r; loads %r vs %r (history: %s)' % (
+                                  {k.hex()[-2:]: p for k, p in idx.items()}, {k.hex()[-2:]: p for k, p in scan_index.items()}, v, scan_view,
+                                  ' '.join(out['steps'])), replay=out)
+    finally:
+        rp.close()
+    return out
+
+
 def run(ctx):
     clock.install()
     faultfs.install()
     q = ctx.quick
     _mc(ctx)
+    zs = _zsane(ctx)
     num = 50 if q else 1200
     c1 = sd.consts('file', Cls='MCCls', NOid=3, Metas=('m0', 'm1'), MaxTxn=9, MaxRecs=3, MaxClock=2)
     files = [(f, c1) for f in S.simulate(ctx, 'commit', c1, num=num, depth=70, seed=ctx.seed + 31, next_='NextCommit')]
@@ -59,6 +145,7 @@ def run(ctx):
         'trace_events': sum(len(t) for t in traces),
         'images_opened': images,
         'probe_kinds': kinds,
+        'zsane_counterexample': zs,
         'behaviours': len(res),
         'rule': 'behaviours of ZStorage (commit-heavy with reopen; pack-heavy) run on a real FileStorage over the recording '
                 'layer; at every point where an API call has returned (incl. after a vote: unfinished transaction at the '
